@@ -692,7 +692,7 @@ func TestC14(t *testing.T) {
 			run(c, t.Fatalf)
 		}
 	}
-	rapid.Check(t, func(rt *rapid.T) {
+	checkBudget(t, func(rt *rapid.T) {
 		run(genAPICase(rt), rt.Fatalf)
 	})
 }
